@@ -307,7 +307,7 @@ def gen_orderbook(rng, g, name, node, n_orders=None, full_exec=False, price_leve
     return {'type': 'OrderBook', 'name': name, 'nodes': [node], 'orders': o, 'full_exec': bool(full_exec), 'wacc': pick(rng, [0., 0., 0.1])}
 
 
-def gen_plant(rng, g, name, nodes, f, price_key, chp=False, simple=False, fuel=True, ramp_profiles=True):
+def gen_plant(rng, g, name, nodes, f, price_key, chp=False, simple=False, fuel=True, ramp_profiles=True, dict_costs=False):
     """Plant / CHPAsset spec with MIP features. nodes: [power, (heat), (fuel)]"""
     hi = pick(rng, [4., 6., 10.]); lo = pick(rng, [1., 2., 0.])
     a = {'type': 'CHPAsset' if chp else 'Plant', 'name': name, 'nodes': list(nodes), 'price': price_key,
@@ -346,6 +346,14 @@ def gen_plant(rng, g, name, nodes, f, price_key, chp=False, simple=False, fuel=T
             a.pop('time_already_running', None); a.pop('last_dispatch', None)
             if not a.get('time_already_off'):
                 a['time_already_off'] = r2(st)
+    if dict_costs and not simple:
+        # cost parameters given as interval data that cover only a part of the horizon (elsewhere the documented default 0 applies)
+        pts = grid_points(g)
+        mid = naive_str(pts[len(pts) // 2])
+        if local_ok(mid, g.get('tz')):
+            far1 = str(pd.Timestamp(g['end']) + pd.Timedelta(days=30))
+            k = pick(rng, ['start_costs', 'running_costs', 'extra_costs'])
+            a[k] = {'start': [mid], 'end': [far1], 'values': [r2(pick(rng, [1., 4.]) * (f if k == 'running_costs' else 1.))]}
     has_fuel = (len(nodes) == (3 if chp else 2))
     if has_fuel:
         a['fuel_efficiency'] = pick(rng, [1., 0.5, 0.4])
@@ -492,7 +500,7 @@ def gen_mixed_portfolio(rng, kinds=ALL_KINDS, g=None, n_assets=(2, 6), n_nodes=(
                 assets.append(gen_market(rng, 'mkt_' + heat, heat, f, key, spread=0.5, cap=30.))
             if fuel in nds:
                 assets.append({'type': 'SimpleContract', 'name': 'mkt_' + fuel, 'nodes': [fuel], 'price': key, 'min_cap': 0., 'max_cap': 200. * f, 'extra_costs': 0., 'wacc': 0.})
-            assets.append(gen_plant(rng, g, ('pl%d' if ty == 'plant' else 'chp%d') % j, nds, f, 'p0', chp=(ty == 'chp'), simple=rng.random() < 0.4))
+            assets.append(gen_plant(rng, g, ('pl%d' if ty == 'plant' else 'chp%d') % j, nds, f, 'p0', chp=(ty == 'chp'), simple=rng.random() < 0.4, dict_costs=rng.random() < 0.3))
         elif ty == 'scaled':
             base = pick(rng, ['storage', 'contract', 'transport'])
             if base == 'storage':
